@@ -469,20 +469,54 @@ func TestVerifWireSnapshot(t *testing.T) {
 				ev["case"] = vM{"shape": c.Shape, "mut": c.Mut, "mut2": c.Mut2}
 				tr.Emit(ev)
 			case "pair":
-				a := vwSnapBuild(c.Shape, rng)
-				b := vwSnapPerturb(a, c.F, rng)
-				if b == nil {
-					continue
+				// mode fresh: two snapshots that differ in field f.
+				// mode stale / inplace: the Hash field is set (s.Hash = s.PayloadHash()) before the field
+				// is changed on a copy / on the struct itself: the hash is a function of the payload, not
+				// of what the Hash field remembers.
+				for _, mode := range []string{"fresh", "stale", "inplace"} {
+					a := vwSnapBuild(c.Shape, rng)
+					var ha, hb crypto.Hash
+					var pa, pb []byte
+					skip := false
+					res, _ := vCall(func() error {
+						ha, pa = a.PayloadHash(), a.versionedPayload()
+						if mode != "fresh" {
+							a.Hash = ha
+						}
+						b := vwSnapPerturb(a, c.F, rng)
+						if b == nil {
+							skip = true
+							return nil
+						}
+						if mode == "inplace" {
+							*a.Snapshot = *b.Snapshot
+							a.TopologicalOrder = b.TopologicalOrder
+							b = a
+						}
+						hb, pb = b.PayloadHash(), b.versionedPayload()
+						return nil
+					})
+					if skip {
+						break
+					}
+					tr.Emit(vM{"ev": "Pair", "idx": idx, "shape": c.Shape, "f": c.F, "mode": mode, "res": res,
+						"hash_eq": ha == hb, "payload_eq": bytes.Equal(pa, pb)})
 				}
-				var ha, hb crypto.Hash
-				var pa, pb []byte
-				res, _ := vCall(func() error {
-					ha, hb = a.PayloadHash(), b.PayloadHash()
-					pa, pb = a.versionedPayload(), b.versionedPayload()
-					return nil
-				})
-				tr.Emit(vM{"ev": "Pair", "idx": idx, "shape": c.Shape, "f": c.F, "res": res,
-					"hash_eq": ha == hb, "payload_eq": bytes.Equal(pa, pb)})
+				if c.F == "node" {
+					// equal payload, Hash field holding something else: same hash as a fresh snapshot
+					a := vwSnapBuild(c.Shape, rng)
+					var ha, hb crypto.Hash
+					var pa, pb []byte
+					res, _ := vCall(func() error {
+						ha, pa = a.PayloadHash(), a.versionedPayload()
+						s := *a.Snapshot
+						s.Hash = vwRandHash(rng)
+						hb, pb = s.PayloadHash(), s.versionedPayload()
+						return nil
+					})
+					tr.Emit(vM{"ev": "Pair", "idx": idx, "shape": c.Shape, "f": "hashfield", "mode": "stale", "res": res,
+						"hash_eq": ha == hb, "payload_eq": bytes.Equal(pa, pb)})
+				}
 			}
 		}
 	}
